@@ -123,6 +123,11 @@ struct iauth_xquery_client {
     /** Bitmask of services that sent OK responses to this client. */
     uint32_t ok_mask;
 
+    /** Value of #iauth_xquery_epoch when the masks above were last
+     * checked against the service table (see iauth_xquery_refresh()).
+     */
+    unsigned long epoch;
+
     /** Account name concatenated with password; empty if unknown.
      *
      * This is the value passed by the client in its *first* PASSWORD
@@ -158,6 +163,11 @@ struct iauth_xquery_service {
     /** If non-zero, this service is (still) mentioned in the config file. */
     int configured;
 
+    /** Value of #iauth_xquery_epoch when this service was (last)
+     * added to the configuration.
+     */
+    unsigned long born;
+
     /** Total number of queries sent to this service. */
     unsigned int queries;
 
@@ -192,6 +202,9 @@ static struct iauth_module iauth_xquery;
 static struct log_type *iauth_xquery_log;
 static struct iauth_xquery_services iauth_xquery_services;
 static struct iauth_flagset iauth_xquery_flags[4];
+
+/** Counts how many times a service has been added to the table. */
+static unsigned long iauth_xquery_epoch;
 
 static struct {
     unsigned long n_cli_allocs;
@@ -262,6 +275,36 @@ static void iauth_xquery_unref(unsigned int ii)
     stats.n_srv_frees++;
 }
 
+/** Forget what \a cli remembers about service slots that have been
+ * given to another service since.
+ *
+ * The per-client masks are indexed by slot.  When a reload retires a
+ * service and a later (or the same) reload adds another one, the new
+ * service may get the old one's slot while clients that talked to the
+ * old service are still around; their sent / more / ok bits must not
+ * be taken to be about the newcomer.
+ */
+static void iauth_xquery_refresh(struct iauth_xquery_client *cli)
+{
+    struct iauth_xquery_service *srv;
+    unsigned int ii;
+
+    if (cli->epoch == iauth_xquery_epoch)
+        return;
+    for (ii = 0; ii < iauth_xquery_services.used; ++ii) {
+        srv = iauth_xquery_services.vec[ii];
+        if (srv && (srv->born <= cli->epoch))
+            continue;
+        /* Still waiting for this slot's answer: nothing was reused. */
+        if (cli->ref_mask & (1u << ii))
+            continue;
+        cli->sent_mask &= ~(1u << ii);
+        cli->more_mask &= ~(1u << ii);
+        cli->ok_mask &= ~(1u << ii);
+    }
+    cli->epoch = iauth_xquery_epoch;
+}
+
 static void iauth_xquery_set_account(struct iauth_request *req,
                                      const char account[])
 {
@@ -290,6 +333,7 @@ static void iauth_xquery_x_reply(const char service[], const char routing[],
     cli = set_find(&req->data, &ptr);
     if (!cli)
         return;
+    iauth_xquery_refresh(cli);
 
     /* See if this is a response from a service that we are waiting for. */
     for (ii = 0; ii < iauth_xquery_services.used; ++ii) {
@@ -384,6 +428,7 @@ static void iauth_xquery_new_client(struct iauth_request *req)
     node = set_node_alloc(sizeof(*cli));
     cli = set_node_data(node);
     cli->key = &iauth_xquery;
+    cli->epoch = iauth_xquery_epoch;
     set_insert(&req->data, node);
 }
 
@@ -403,6 +448,7 @@ static void iauth_xquery_check(struct iauth_request *req,
     cli = set_find(&req->data, &ptr);
     if (!cli)
         return;
+    iauth_xquery_refresh(cli);
 
     /* Send the request off to the xquery services. */
     routing[0] = '\0';
@@ -550,6 +596,20 @@ static void iauth_xquery_password(struct iauth_request *req,
     cli = set_find(&req->data, &ptr);
     if (!cli)
         return;
+    iauth_xquery_refresh(cli);
+
+    /* A challenge from a service that a reload has retired can no
+     * longer be answered.  Forget it, so that this line is taken for
+     * what it then is (a password), whether or not the retired entry
+     * is still kept around for other clients.
+     */
+    for (ii = 0; ii < iauth_xquery_services.used; ++ii) {
+        if (!(cli->more_mask & (1u << ii)))
+            continue;
+        if (!iauth_xquery_services.vec[ii]
+            || !iauth_xquery_services.vec[ii]->configured)
+            cli->more_mask &= ~(1u << ii);
+    }
 
     if ((cli->more_mask == 0) || (cli->password[0] == '\0')) {
         iauth_xquery_check_password(req, cli, password);
@@ -564,14 +624,6 @@ static void iauth_xquery_password(struct iauth_request *req,
                 continue;
 
             srv = iauth_xquery_services.vec[ii];
-            if (!srv || !srv->configured) {
-                /* The service was retired by a reload; its challenge
-                 * can no longer be answered.  Forget it, or every
-                 * later password would be taken for a response.
-                 */
-                cli->more_mask &= ~(1u << ii);
-                continue;
-            }
             iauth_x_query(srv->name, routing, "MORE %s", password);
             cli->more_mask &= ~(1u << ii);
             if (!cli->ref_mask) {
@@ -614,11 +666,18 @@ static void iauth_xquery_config_service(const char *name, const char *type)
             break;
     }
 
+    /* A service that comes back after it was retired (and was only
+     * kept for the clients still waiting on it) counts as new.
+     */
+    if ((ii < iauth_xquery_services.used) && !srv->configured)
+        srv->born = ++iauth_xquery_epoch;
+
     /* If not, add it. */
     if (ii == iauth_xquery_services.used) {
         stats.n_srv_allocs++;
         srv = xmalloc(sizeof(*srv) + strlen(name));
         strcpy(srv->name, name);
+        srv->born = ++iauth_xquery_epoch;
 
         /* Try to insert it in an empty slot. */
         for (ii = 0; ii < iauth_xquery_services.used; ++ii) {
@@ -675,11 +734,11 @@ static void iauth_xquery_services_changed(struct conf_node_base *node)
     unsigned int ii;
 
     if (node == &conf.root->base) {
-        /* Mark all services as unconfigured. */
+        /* Mark all services as unconfigured (-1: until just now). */
         for (ii = 0; ii < iauth_xquery_services.used; ++ii) {
             srv = iauth_xquery_services.vec[ii];
-            if (srv != NULL)
-                srv->configured = 0;
+            if ((srv != NULL) && srv->configured)
+                srv->configured = -1;
         }
 
         /* Mark each named service as configured. */
@@ -698,8 +757,12 @@ static void iauth_xquery_services_changed(struct conf_node_base *node)
         }
 
         /* Check for unreferenced services. */
-        for (ii = 0; ii < iauth_xquery_services.used; ++ii)
+        for (ii = 0; ii < iauth_xquery_services.used; ++ii) {
+            srv = iauth_xquery_services.vec[ii];
+            if ((srv != NULL) && (srv->configured < 0))
+                srv->configured = 0;
             iauth_xquery_unref(ii);
+        }
     }
 }
 
@@ -757,6 +820,7 @@ int iauth_xreply_ok(struct iauth_request *request, const char *service)
     cli = set_find(&request->data, &ptr);
     if (!cli)
         return -1;
+    iauth_xquery_refresh(cli);
 
     for (ii = 0; ii < iauth_xquery_services.used; ++ii)
     {
